@@ -247,7 +247,7 @@ func (eng *Engine) discharge(g *Gen, o *Obl, dir string, idx int, timeout time.D
 // candidateModel re-asks with all quantified assertions dropped to obtain a candidate counterexample.
 func (eng *Engine) candidateModel(g *Gen, o *Obl, dir string, idx int) string {
 	f := filepath.Join(dir, fmt.Sprintf("o%04d.model.smt2", idx))
-	os.WriteFile(f, []byte(g.buildQuery(o, "", true, true)), 0o644)
+	os.WriteFile(f, []byte(dropQuantified(g.buildQuery(o, "", true, true))), 0o644)
 	ans, out, _ := runSolver(solvers[0], f, 10*time.Second)
 	if ans != "sat" {
 		return ""
@@ -302,4 +302,49 @@ func (eng *Engine) writeHints(results []*OblResult) {
 	}
 	b, _ := json.MarshalIndent(hints, "", " ")
 	os.WriteFile(filepath.Join(eng.verifDir, "solver_hints.json"), b, 0o644)
+}
+
+// dropQuantified removes every top-level form of an SMT-LIB script that contains a quantifier (S-expression level, so
+// multi-line axioms of the prelude are handled). The result under-constrains the problem: a model of it is only a
+// candidate counterexample.
+func dropQuantified(q string) string {
+	var out strings.Builder
+	depth := 0
+	start := -1
+	inStr := false
+	for i := 0; i < len(q); i++ {
+		c := q[i]
+		if inStr {
+			if c == '"' {
+				inStr = false
+			}
+			continue
+		}
+		switch c {
+		case '"':
+			inStr = true
+		case ';':
+			if depth == 0 {
+				for i < len(q) && q[i] != '\n' {
+					i++
+				}
+			}
+		case '(':
+			if depth == 0 {
+				start = i
+			}
+			depth++
+		case ')':
+			depth--
+			if depth == 0 && start >= 0 {
+				form := q[start : i+1]
+				if !strings.Contains(form, "(forall ") && !strings.Contains(form, "(exists ") {
+					out.WriteString(form)
+					out.WriteString("\n")
+				}
+				start = -1
+			}
+		}
+	}
+	return out.String()
 }
